@@ -652,6 +652,13 @@ class CFG(object):
         assignment to a flag makes it U; branch nodes whose test is decided the
         other way by the valuation are pruned."""
         from . import canon
+        import re as _re
+        # the "has returned" flags that expanding a helper with returns inside
+        # loops / try blocks introduces are always followed exactly
+        flags = dict(flags)
+        for d in self.rd.defs:
+            if _re.match(r"_ret__\d+$", d.name) and d.name not in flags:
+                flags[d.name] = U
         names = sorted(flags)
         avoid = set(avoid)
         self._assume_raw = dict(assume) if assume else None
